@@ -137,6 +137,21 @@ func runC06On(c *Ctx, pfx string, patterns []string, minPairs int) {
 					}
 				}
 			}
+			if !same && len(ff.Closures) == 0 && len(rf.Closures) == 0 {
+				// layer 2 under the distinct-parameter assumption, when both sides establish it at all their call sites
+				okF, nF := distinctArgsAtAllCallSites(c.P, c.An, ff)
+				okR, nR := distinctArgsAtAllCallSites(ref, refAn, rf)
+				if okF && okR {
+					da, u1 := canonPathsOpt(c.An, ff.SSA, rename, true)
+					db, u2 := canonPathsOpt(refAn, rf.SSA, nil, true)
+					if u1 == "" && u2 == "" && strings.Join(da, "\n") == strings.Join(db, "\n") {
+						layer2++
+						R.Held(pfx+"equiv", construct, "pair", c.P.Pos(ff.Decl.Pos()), fmt.Sprintf("differs textually from %s.%s but has the same %d canonical path summaries when its pointer parameters denote distinct elements, which all call sites establish (%d in the fork, %d in the reference)", rp.PkgPath, rname, len(da), nF, nR))
+						samples = append(samples, map[string]interface{}{"pair": construct, "layer": "2 (distinct parameters)", "paths": da})
+						continue
+					}
+				}
+			}
 			if same {
 				layer2++
 				R.Held(pfx+"equiv", construct, "pair", c.P.Pos(ff.Decl.Pos()), fmt.Sprintf("differs textually from %s.%s but has the same %d canonical path summaries (layer 2)", rp.PkgPath, rname, len(pa)))
